@@ -58,6 +58,7 @@ impl EqCase {
 pub fn eq_case_strategy(thorough: bool) -> BoxedStrategy<EqCase> {
     let mut p = gen::profile(14, thorough);
     p.max_ops = if thorough { 60 } else { 25 };
+    p.ops = p.ops.into_iter().map(|(n, w)| (n, match n { "clone" => 14, "get_mut" | "peek_mut" => 8, "change_priority" => 12, _ => w })).collect();
     p.size_w = [1, 1, 1, 1, 4, 2, 0, 0];
     let kinds = proptest::sample::select(vec![Kind::PQ, Kind::DPQ]);
     (kinds, gen::case_strategy(&p), gen::case_strategy(&p), 0u8..4)
@@ -139,17 +140,23 @@ fn equalise<Q: Queue>(it: &mut Interp<Q>, s: &Model, bits: u64) {
     }
 }
 
-fn run_route<'c, Q: Queue>(case: &'c Case, cfg: &'c RunCfg) -> Option<Interp<'c, Q>> {
+/// run one route; a failure the property owns (a clone / eq operation inside the route) is a
+/// violation, any other failure makes the route unusable (judged by its own property)
+fn run_route<'c, Q: Queue>(case: &'c Case, cfg: &'c RunCfg) -> Result<Option<Interp<'c, Q>>, Failure> {
     let (mut it, early) = Interp::<Q>::start(case, cfg, false);
-    if early.is_some() {
-        return None;
+    match early {
+        Some(Outcome::Fail(f)) => return Err(f),
+        Some(_) => return Ok(None),
+        None => {}
     }
     for (i, op) in case.ops.iter().enumerate() {
-        if it.step_op(i, op).is_some() {
-            return None;
+        match it.step_op(i, op) {
+            Some(Outcome::Fail(f)) => return Err(f),
+            Some(_) => return Ok(None),
+            None => {}
         }
     }
-    Some(it)
+    Ok(Some(it))
 }
 
 fn eq_run<QA, QB>(c: &EqCase, stats: &mut Stats) -> Result<bool, Failure>
@@ -159,8 +166,8 @@ where
 {
     let fail = |clause: &'static str, detail: String| Failure { group: Group::EqClone, clause, step: 0, op: "eq", detail, kind: QA::NAME };
     let cfg = RunCfg { prop: 14, hint_meta: false, tables: true, universe: c.universe.max(1), raw: false, strict_trace: false };
-    let Some(mut ia) = run_route::<QA>(&c.a, &cfg) else { return Ok(false) };
-    let Some(mut ib) = run_route::<QB>(&c.b, &cfg) else { return Ok(false) };
+    let Some(mut ia) = run_route::<QA>(&c.a, &cfg)? else { return Ok(false) };
+    let Some(mut ib) = run_route::<QB>(&c.b, &cfg)? else { return Ok(false) };
     let s = {
         let mut m = Model::new();
         for &(id, t, p) in c.content.iter() {
